@@ -8,6 +8,7 @@ import (
 	"github.com/openziti/storage/ast"
 	"github.com/openziti/storage/boltz"
 	"go.etcd.io/bbolt"
+	"time"
 )
 
 const (
@@ -19,12 +20,13 @@ const (
 	StNotes   = "notes"
 	StTickets = "tickets"
 	StFolders = "folders" // parent -> folders via AddFkConstraint(nullable, CascadeDelete): a cascade that re-enters its own constraint
+	StDesks   = "desks"   // occupant: an fk INDEX whose field symbol is linked to the child store staff while the back-reference set (people.desks) is declared on the parent
 	StReviews = "reviews" // reviewer -> staff via AddFkConstraint(nullable, CascadeNone): the TARGET is a child store
 	StGroups  = "groups"
 	StMemos   = "memos" // topic -> groups via AddFkConstraint(not nullable, CascadeDelete): a cascade target without child stores
 )
 
-var AllStores = []string{StDepts, StPeople, StStaff, StPX, StBadges, StNotes, StTickets, StGroups, StMemos, StReviews, StFolders}
+var AllStores = []string{StDepts, StPeople, StStaff, StPX, StBadges, StNotes, StTickets, StGroups, StMemos, StReviews, StFolders, StDesks}
 
 // ---------- entities ----------
 
@@ -51,7 +53,12 @@ func (e *Person) GetEntityType() string { return StPeople }
 
 type Staff struct {
 	Person
-	Level   int32
+	Level int32
+	// three more field types, all functions of Level (so that operations need no further arguments): an int64, a
+	// float64 and a time; written under the keys salary / rate / hired
+	Salary  int64
+	Rate    float64
+	Hired   time.Time
 	BadgeNo string
 }
 
@@ -96,6 +103,15 @@ type Folder struct {
 func (e *Folder) GetId() string         { return e.Id }
 func (e *Folder) SetId(id string)       { e.Id = id }
 func (e *Folder) GetEntityType() string { return StFolders }
+
+type Desk struct {
+	Id       string
+	Occupant *string
+}
+
+func (e *Desk) GetId() string         { return e.Id }
+func (e *Desk) SetId(id string)       { e.Id = id }
+func (e *Desk) GetEntityType() string { return StDesks }
 
 type Review struct {
 	Id       string
@@ -165,11 +181,27 @@ func (s *staffStrategy) FillEntity(e *Staff, b *boltz.TypedBucket) {
 	b.SetError(err)
 	e.Level = b.GetInt32WithDefault("level", 0)
 	e.BadgeNo = b.GetStringWithDefault("badgeNo", "")
+	e.Salary = b.GetInt64WithDefault("salary", -1)
+	if f := b.GetFloat64("rate"); f != nil {
+		e.Rate = *f
+	} else {
+		e.Rate = -1
+	}
+	e.Hired = b.GetTimeOrDefault("hired", time.Time{})
 }
 func (s *staffStrategy) PersistEntity(e *Staff, ctx *boltz.PersistContext) {
 	s.people.GetEntityStrategy().PersistEntity(&e.Person, ctx.GetParentContext())
 	ctx.SetInt32("level", e.Level)
 	ctx.SetString("badgeNo", e.BadgeNo)
+	salary, rate, hired := staffDerived(e.Level)
+	ctx.SetInt64("salary", salary)
+	ctx.Bucket.SetFloat64("rate", rate, ctx.FieldChecker)
+	ctx.SetTimeP("hired", &hired)
+}
+
+// staffDerived: the values of the staff fields that follow from the level.
+func staffDerived(level int32) (int64, float64, time.Time) {
+	return int64(level)*1000 + 7, float64(level) + 0.5, time.Unix(946684800+int64(level)*86400, 0).UTC()
 }
 
 type pxStrategy struct{ people *PeopleStore }
@@ -217,6 +249,16 @@ func (folderStrategy) FillEntity(e *Folder, b *boltz.TypedBucket) {
 }
 func (folderStrategy) PersistEntity(e *Folder, ctx *boltz.PersistContext) {
 	ctx.SetStringP("parent", e.Parent)
+}
+
+type deskStrategy struct{}
+
+func (deskStrategy) NewEntity() *Desk { return &Desk{} }
+func (deskStrategy) FillEntity(e *Desk, b *boltz.TypedBucket) {
+	e.Occupant = b.GetString("occupant")
+}
+func (deskStrategy) PersistEntity(e *Desk, ctx *boltz.PersistContext) {
+	ctx.SetStringP("occupant", e.Occupant)
 }
 
 type reviewStrategy struct{}
@@ -268,6 +310,7 @@ type PeopleStore struct {
 	idxNick    boltz.ReadIndex
 	idxRoles   boltz.SetReadIndex
 	symMentees boltz.EntitySetSymbol
+	symDesks   boltz.EntitySetSymbol
 	symBadges  boltz.EntitySetSymbol
 	symGroups  boltz.EntitySetSymbol
 	symKudos   boltz.EntitySetSymbol
@@ -277,6 +320,8 @@ type PeopleStore struct {
 type StaffStore struct {
 	*boltz.BaseStore[*Staff]
 	idxBadgeNo boltz.ReadIndex
+	symLeading boltz.EntitySetSymbol
+	lcLeading  boltz.LinkCollection
 }
 type PXStore struct {
 	*boltz.BaseStore[*PX]
@@ -294,6 +339,9 @@ type TicketStore struct {
 type FolderStore struct {
 	*boltz.BaseStore[*Folder]
 }
+type DeskStore struct {
+	*boltz.BaseStore[*Desk]
+}
 type ReviewStore struct {
 	*boltz.BaseStore[*Review]
 }
@@ -306,6 +354,8 @@ type GroupStore struct {
 	symKudosFrom boltz.EntitySetSymbol
 	lcMembers    boltz.LinkCollection
 	rcKudosFrom  boltz.RefCountedLinkCollection
+	symLeads     boltz.EntitySetSymbol
+	lcLeads      boltz.LinkCollection
 }
 
 type Stores struct {
@@ -318,6 +368,7 @@ type Stores struct {
 	Tickets *TicketStore
 	Reviews *ReviewStore
 	Folders *FolderStore
+	Desks   *DeskStore
 	Groups  *GroupStore
 	Memos   *MemoStore
 
@@ -333,6 +384,9 @@ const sharedQueryText = `name in ["n1", "n3", "n5"] skip 0 limit 100`
 const sharedQueryText2 = `level > 0.5 skip 0 limit 100`
 
 const rootBucket = "stores"
+
+// SideLeads names, in link operations, the groups side of the second link collection (staff.leading <-> groups.leads).
+const SideLeads = "leads"
 
 func notFoundF(entityType string) func(id string) error {
 	return func(id string) error { return boltz.NewNotFoundError(entityType, "id", id) }
@@ -412,6 +466,9 @@ func NewStores(variant int) *Stores {
 	s.Folders = &FolderStore{BaseStore: boltz.NewBaseStore(boltz.StoreDefinition[*Folder]{
 		EntityType: StFolders, EntityStrategy: folderStrategy{}, BasePath: base, EntityNotFoundF: notFoundF(StFolders)})}
 	s.Folders.InitImpl(s.Folders)
+	s.Desks = &DeskStore{BaseStore: boltz.NewBaseStore(boltz.StoreDefinition[*Desk]{
+		EntityType: StDesks, EntityStrategy: deskStrategy{}, BasePath: base, EntityNotFoundF: notFoundF(StDesks)})}
+	s.Desks.InitImpl(s.Desks)
 	s.Groups = &GroupStore{BaseStore: boltz.NewBaseStore(boltz.StoreDefinition[*Group]{
 		EntityType: StGroups, EntityStrategy: groupStrategy{}, BasePath: base, EntityNotFoundF: notFoundF(StGroups)})}
 	s.Groups.InitImpl(s.Groups)
@@ -475,9 +532,21 @@ func NewStores(variant int) *Stores {
 	p.GrantSymbols(px)
 	// an index of its own on the store that is registered AFTER the plain child store: its entries must go when the
 	// entity is deleted through any of the three stores
-	px.idxMemo = px.AddNullableUniqueIndex(px.AddSymbol("memo", ast.NodeTypeString))
+	switch pxMode(variant) {
+	case 0:
+		px.idxMemo = px.AddNullableUniqueIndex(px.AddSymbol("memo", ast.NodeTypeString))
+	case 1:
+		px.idxMemo = px.AddUniqueIndex(px.AddSymbol("memo", ast.NodeTypeString))
+	default:
+		px.AddSymbol("memo", ast.NodeTypeString) // nothing of its own: no index, no link collection
+	}
 	if variant&1 == 0 {
 		p.RegisterChildStoreStrategy(&pxChildStrategy{store: px})
+	}
+	// made public only after the child stores were granted the symbols
+	// (set symbols are private unless made public; GrantSymbols copied the flags as they were then)
+	for _, name := range []string{"groups", "mentees", "badges", "kudos"} {
+		p.MakeSymbolPublic(name)
 	}
 
 	b := s.Badges
@@ -493,6 +562,13 @@ func NewStores(variant int) *Stores {
 	t := s.Tickets
 	t.AddIdSymbol("id", ast.NodeTypeString)
 	t.AddFkConstraint(t.AddFkSymbol("assignee", p), true, boltz.CascadeNone)
+
+	// the field symbol names the child store staff as its linked type, the back-reference set lives on people: the
+	// index must keep its entries where the set symbol says (and accepts any person as a target)
+	ds := s.Desks
+	ds.AddIdSymbol("id", ast.NodeTypeString)
+	p.symDesks = p.AddFkSetSymbol("desks", ds)
+	ds.AddNullableFkIndex(ds.AddFkSymbol("occupant", st), p.symDesks)
 
 	// a tree: deleting a folder deletes its sub-folders, each of which runs the same constraint again
 	fo := s.Folders
@@ -513,11 +589,17 @@ func NewStores(variant int) *Stores {
 	mm.AddIdSymbol("id", ast.NodeTypeString)
 	mm.AddFkConstraint(mm.AddFkSymbol("topic", g), false, boltz.CascadeDelete) // not nullable
 
+	// a link collection one side of which lives in the child store: staff.leading <-> groups.leads
+	st.symLeading = st.AddFkSetSymbol("leading", g)
+	g.symLeads = g.AddFkSetSymbol("leads", st)
+
 	// ---- linked ----
 	p.lcGroups = p.AddLinkCollection(p.symGroups, g.symMembers)
 	g.lcMembers = g.AddLinkCollection(g.symMembers, p.symGroups)
 	p.rcKudos = p.AddRefCountedLinkCollection(p.symKudos, g.symKudosFrom)
 	g.rcKudosFrom = g.AddRefCountedLinkCollection(g.symKudosFrom, p.symKudos)
+	st.lcLeading = st.AddLinkCollection(st.symLeading, g.symLeads)
+	g.lcLeads = g.AddLinkCollection(g.symLeads, st.symLeading)
 	s.sharedQ = map[string]ast.Query{}
 	for _, name := range []string{StPeople, StStaff, StPX} {
 		q, err := ast.Parse(s.ByName(name), sharedQueryText)
@@ -555,6 +637,8 @@ func (s *Stores) ByName(name string) boltz.Store {
 		return s.Reviews
 	case StFolders:
 		return s.Folders
+	case StDesks:
+		return s.Desks
 	case StGroups:
 		return s.Groups
 	case StMemos:
@@ -565,7 +649,7 @@ func (s *Stores) ByName(name string) boltz.Store {
 
 // TopLevel lists the stores that own an entities bucket (used by CheckIntegrity / InitializeIndexes fan-out).
 func (s *Stores) All() []boltz.Store {
-	return []boltz.Store{s.Depts, s.People, s.Staff, s.PX, s.Badges, s.Notes, s.Tickets, s.Groups, s.Memos, s.Reviews, s.Folders}
+	return []boltz.Store{s.Depts, s.People, s.Staff, s.PX, s.Badges, s.Notes, s.Tickets, s.Groups, s.Memos, s.Reviews, s.Folders, s.Desks}
 }
 
 type indexInitializer interface {
